@@ -83,3 +83,39 @@ Example ex_lit_errors :
   map lit_parse [[49; 95; 95; 48]; [48; 120]; [49; 101]; [48; 49]; [49; 65]; []; [49; 0]] =
   [LErr; LErr; LErr; LErr; LErr; LErr; LErr].
 Proof. vm_compute. reflexivity. Qed.
+
+(* ---- the grammar of literals: the hypotheses of the value theorems are satisfiable ---- *)
+From Verif Require Import Num.NumLitGrammar.
+
+Definition ds_ (l : list N) : dseq := mkDs (hd 0 l) (map (fun c => (false, c)) (tl l)).
+
+(* "072.40" *)
+Definition g_float := GFloat (Some (ds_ [48; 55; 50])) (Some (Some (ds_ [52; 48]))) None.
+Example ex_g_float : render g_float = [48; 55; 50; 46; 52; 48] /\ lit_ok g_float = true.
+Proof. split; reflexivity. Qed.
+(* "1_0.5e-3" *)
+Definition g_float2 :=
+  GFloat (Some (mkDs 49 [(true, 48)])) (Some (Some (ds_ [53]))) (Some (mkExpo false (Some true) (ds_ [51]))).
+Example ex_g_float2 : render g_float2 = [49; 95; 48; 46; 53; 101; 45; 51] /\ lit_ok g_float2 = true /\
+  lit_parse (render g_float2) = LNum (f_ 105 (-4)).
+Proof. repeat split; vm_compute; reflexivity. Qed.
+(* "1.5G" and "0Ki" *)
+Definition g_si := GSi (Some (ds_ [49])) (Some (ds_ [53])) (mkMult 3 false).
+Example ex_g_si : render g_si = [49; 46; 53; 71] /\ lit_ok g_si = true.
+Proof. split; reflexivity. Qed.
+Definition g_si0 := GSi (Some (ds_ [48])) None (mkMult 1 true).
+Example ex_g_si0 : render g_si0 = [48; 75; 105] /\ lit_ok g_si0 = true /\ lit_parse (render g_si0) = LNum (i_ 0).
+Proof. repeat split; vm_compute; reflexivity. Qed.
+(* "0xBad_Face" *)
+Definition g_hex := GBased PxLower (mkDs 66 [(false, 97); (false, 100); (true, 70); (false, 97); (false, 99); (false, 101)]).
+Example ex_g_hex : render g_hex = [48; 120; 66; 97; 100; 95; 70; 97; 99; 101] /\ lit_ok g_hex = true.
+Proof. split; reflexivity. Qed.
+(* "170_141" *)
+Definition g_dec := GDec (mkDs 49 [(false, 55); (false, 48); (true, 49); (false, 52); (false, 49)]).
+Example ex_g_dec : render g_dec = [49; 55; 48; 95; 49; 52; 49] /\ lit_ok g_dec = true /\
+  lit_parse (render g_dec) = LNum (i_ 170141).
+Proof. repeat split; vm_compute; reflexivity. Qed.
+(* grammar-valid but rejected by ParseNum: "01K" (decimals with a leading zero before a multiplier) *)
+Example ex_g_01K : lit_ok (GSi (Some (ds_ [48; 49])) None (mkMult 1 false)) = true /\
+  lit_parse [48; 49; 75] = LErr.
+Proof. split; vm_compute; reflexivity. Qed.
